@@ -70,6 +70,9 @@ Ops(S) ==
       {[name |-> "add_child_nid", p |-> p, d |-> d, x |-> x] : p \in Parents(S), d \in Data, x \in Live(S)} \cup
       UNION {{[name |-> "add_child", p |-> p, d |-> d, xid |-> 0, k |-> 0, pos |-> pos] :
                  d \in Data, pos \in BadPositions(S, p)} : p \in Parents(S)}
+      \cup {[name |-> "add_child", p |-> p, d |-> d, xid |-> -1, k |-> 0, pos |-> PosNone] : p \in Parents(S), d \in Data}
+      \cup {[name |-> "set_data", x |-> x, d |-> d, xid |-> -1, wc |-> wc] :
+             x \in Live(S), d \in 0..1, wc \in {"none", "true"}}      \* data_id= of an unhashable type
       \cup (IF Typed THEN {[name |-> "add_child", p |-> p, d |-> d, xid |-> 0, k |-> -1, pos |-> PosNone] :
                              p \in Parents(S), d \in Data}       \* kind= of an unsupported type
             ELSE {})
